@@ -211,6 +211,10 @@ static void run_pool(std::vector<Op>& ops, int prefill, c19::Pool& P, std::vecto
   { std::unique_lock<std::mutex> lk(P.m); P.active = true; P.turn = 0; P.started[0] = 0; P.cv.notify_all(); P.cv.wait(lk, [&] { return P.turn == -1; }); P.active = false; }
   for (auto& t : th) t.join();
   c19::PL = nullptr;
+  // quiescent epilogue, issued by this one thread: the first drain's fetches, N+2 further inserts and a final drain are ordinary
+  // operations of the same history, so a list left inconsistent by the concurrent phase (which fetches alone cannot show) surfaces
+  for (int k = 0; k < (int)N + 8; k++) { Val v = cache.get(); if (v.id == 0) break; ops.push_back(Op{false, 0, true, v.id}); }
+  for (int k = 0; k < (int)N + 2; k++) { Op o{true, 2000 + k, false, 0}; o.ok = cache.insert(Val(o.id)); ops.push_back(o); }
   for (int k = 0; k < (int)N + 8; k++) { Val v = cache.get(); if (v.id == 0) break; drained.push_back(v.id); }
 }
 
@@ -250,12 +254,14 @@ static void run_pool_case(ByteSource& s, CaseInfo& ci) {
   switch (N) { case 1: run_pool<1>(ops, prefill, P, drained); break; case 2: run_pool<2>(ops, prefill, P, drained); break; case 3: run_pool<3>(ops, prefill, P, drained); break; default: run_pool<4>(ops, prefill, P, drained); }
   std::string ctx = desc + " || result:";
   std::vector<const Op*> all;
-  for (Op& op : ops) { all.push_back(&op); ctx += op.insert ? fmt(" ins(%d)=%d", op.id, (int)op.ok) : fmt(" get=%d", op.got); }
+  int epi_ok = 0;
+  for (Op& op : ops) { all.push_back(&op); if (op.insert && op.id >= 2000 && op.ok) epi_ok++; ctx += op.insert ? fmt(" ins(%d)=%d", op.id, (int)op.ok) : fmt(" get=%d", op.got); }
   ctx += " || drain:"; for (int d : drained) ctx += fmt(" %d", d);
   ci.sample = ctx; ci.label(fmt("pool-N%u-n%d", N, n)); ci.label(fmt("parkings-%d", P.parkings));
   ci.nontrivial = P.overlap;
   ci.set_digest(fnv1a(desc.data(), desc.size()));
   check_history(N, prefill, all, drained, ctx);
+  CHECK(epi_ok == (int)N, fmt("C19|quiescent-epilogue|insert-fails-iff-full|N=%u", N), "%d of %u+2 inserts into the drained cache succeeded :: %s", epi_ok, N, ctx.c_str());
 }
 
 template <class Cache, unsigned N>
@@ -376,6 +382,23 @@ void enumerate(const Emit& emit, const std::string& tier) {
           std::vector<uint8_t> b = head; b.push_back(2);
           b.push_back((uint8_t)t1); b.push_back((uint8_t)(p1 - 1)); b.push_back((uint8_t)r1);
           b.push_back((uint8_t)t2); b.push_back((uint8_t)(p2 - 1)); b.push_back((uint8_t)r2);
+          emit(b);
+        }
+      }
+    }
+    // "long parking" family (quick tier; the thorough pool family above contains it): capacity 3, six operations of every type
+    // vector, one of the first two operations and any later one parked at every pair of points and resumed only when all the
+    // others have completed - the suspended operations then hold a view of a list that has meanwhile been emptied and refilled
+    // (the shape version counters exist for; two-operation overlaps cannot reach it).
+    if (quick) {
+      const int N = 3, n = 6;
+      for (int prefill : {0, N}) for (int types = 0; types < (1 << n); types++) {
+        std::vector<uint8_t> head = {3, (uint8_t)(N - 1), (uint8_t)prefill, (uint8_t)(n - 1)};
+        for (int k = 0; k < n; k++) head.push_back((uint8_t)((types >> k) & 1));
+        for (int t1 = 0; t1 < 2; t1++) for (int t2 = t1 + 1; t2 < n; t2++) for (int p1 = 1; p1 <= maxpt; p1++) for (int p2 = 1; p2 <= maxpt; p2++) {
+          std::vector<uint8_t> b = head; b.push_back(2);
+          b.push_back((uint8_t)t1); b.push_back((uint8_t)(p1 - 1)); b.push_back((uint8_t)(n - 1));
+          b.push_back((uint8_t)t2); b.push_back((uint8_t)(p2 - 1)); b.push_back((uint8_t)(n - 1));
           emit(b);
         }
       }
